@@ -92,6 +92,110 @@ func atomsOf(g Guard) Atom {
 	return Atom{v, pos}
 }
 
+// predicateAtoms: conditions that hold whenever the boolean function fn
+// returns want (necessary conditions of that result), as atoms over fn's own
+// values: for every way fn can return want (a constant under its guards, a
+// computed value, a phi edge) the guards of that way plus the value's own
+// polarity; the result is the intersection over all ways. nil when nothing
+// is common or fn is not a simple predicate.
+func predicateAtoms(fn *ssa.Function, want bool) []Atom {
+	if fn == nil || fn.Blocks == nil {
+		return nil
+	}
+	type key struct {
+		v   ssa.Value
+		pos bool
+	}
+	var alts []map[key]bool
+	add := func(gs []Guard, extra ...Atom) {
+		m := map[key]bool{}
+		for _, g := range gs {
+			a := atomsOf(g)
+			m[key{a.V, a.Pos}] = true
+		}
+		for _, a := range extra {
+			m[key{a.V, a.Pos}] = true
+		}
+		alts = append(alts, m)
+	}
+	norm := func(v ssa.Value, pos bool) Atom {
+		for {
+			if u, ok := v.(*ssa.UnOp); ok && u.Op == token.NOT {
+				v, pos = u.X, !pos
+				continue
+			}
+			return Atom{v, pos}
+		}
+	}
+	isConst := func(v ssa.Value) (bool, bool) {
+		k, ok := v.(*ssa.Const)
+		if !ok || k.Value == nil {
+			return false, false
+		}
+		return k.Value.String() == "true", true
+	}
+	bad := false
+	for _, b := range fn.Blocks {
+		if len(b.Instrs) == 0 || b == fn.Recover {
+			continue
+		}
+		ret, ok := b.Instrs[len(b.Instrs)-1].(*ssa.Return)
+		if !ok {
+			continue
+		}
+		if len(ret.Results) != 1 {
+			return nil
+		}
+		v := ret.Results[0]
+		if cv, isK := isConst(v); isK {
+			if cv == want {
+				add(GuardsOf(ret))
+			}
+			continue
+		}
+		if phi, isPhi := v.(*ssa.Phi); isPhi && phi.Block() == b {
+			for i, e := range phi.Edges {
+				pred := b.Preds[i]
+				last := pred.Instrs[len(pred.Instrs)-1]
+				gs := GuardsOf(last)
+				var extra []Atom
+				if iff, isIf := last.(*ssa.If); isIf && pred.Succs[0] != pred.Succs[1] {
+					extra = append(extra, norm(iff.Cond, pred.Succs[0] == b))
+				}
+				if cv, isK := isConst(e); isK {
+					if cv == want {
+						add(gs, extra...)
+					}
+					continue
+				}
+				add(gs, append(extra, norm(e, want))...)
+			}
+			continue
+		}
+		if _, isPhi := v.(*ssa.Phi); isPhi {
+			bad = true
+			continue
+		}
+		add(GuardsOf(ret), norm(v, want))
+	}
+	if bad || len(alts) == 0 {
+		return nil
+	}
+	var out []Atom
+	for k := range alts[0] {
+		all := true
+		for _, m := range alts[1:] {
+			if !m[k] {
+				all = false
+			}
+		}
+		if all {
+			out = append(out, Atom{k.v, k.pos})
+		}
+	}
+	return out
+}
+
 // searchAvoiding walks forward from just after `from` (or from the
 // function entry when from == nil) and returns the first instruction
 // satisfying target that is reachable without executing an instruction
